@@ -48,6 +48,11 @@ func c09Pair(seed uint64, aligned bool) *lib.Pair {
 	p.New.PutFile("copy-odd.bin", p.Old.E["copy-odd.bin"].Data)
 	p.Old.PutFile("copy-small.bin", rb(int64(r.Range(1, 5000))))
 	p.New.PutFile("sub/copy-small.bin", p.Old.E["copy-small.bin"].Data)
+	// one old file copied to several new paths (the same old file is read several times in a row)
+	p.Old.PutFile("dup-src.bin", rb(lib.BS+int64(r.Range(1, 3000))))
+	p.New.PutFile("dup-src.bin", p.Old.E["dup-src.bin"].Data)
+	p.New.PutFile("dup/copy1.bin", p.Old.E["dup-src.bin"].Data)
+	p.New.PutFile("dup/copy2.bin", p.Old.E["dup-src.bin"].Data)
 	// empty old file kept; a file the patch does not reference; brand-new data
 	p.Old.PutFile("empty.bin", nil)
 	p.New.PutFile("empty.bin", nil)
@@ -57,7 +62,7 @@ func c09Pair(seed uint64, aligned bool) *lib.Pair {
 }
 
 var c09Reuse = map[string]string{"ranged.bin": "block-range|bsdiff", "copy-64k.bin": "whole-file-aligned", "copy-128k.bin": "whole-file-aligned",
-	"copy-odd.bin": "whole-file-unaligned", "copy-small.bin": "whole-file-unaligned", "empty.bin": "empty", "unreferenced.bin": "unreferenced"}
+	"copy-odd.bin": "whole-file-unaligned", "copy-small.bin": "whole-file-unaligned", "dup-src.bin": "whole-file-duplicated", "empty.bin": "empty", "unreferenced.bin": "unreferenced"}
 
 func c09Damages(p *lib.Pair) []lib.Damage {
 	var out []lib.Damage
